@@ -30,6 +30,8 @@ CONSTANTS Names, MaxSteps, FIX_CLOSE, FIX_BYUSER,
           USER_NESTS,            \* the user may watch both D and its entry D/x (they share one descriptor: known finding)
           USER_RENAMES,          \* entries may be renamed inside D (onto a free or a used name)
           RECHECK_ON_RENAME,     \* D9 repaired: the reader re-checks the old name after a Rename as it does after a Remove
+          ENTRIES_ARE_DIRS,      \* the entries of D are directories themselves (nothing is written "to" them)
+          RECHECK_DIRS,          \* D16 repaired: the look-again after Remove / Rename is made for entries that are directories too
           USER_REMOVES_ENTRIES   \* the user may call Remove on an entry of a watched directory that was never added (known finding, see DESIGN)
 
 VARIABLES present,    \* entry name -> incarnation number (0 = absent)
@@ -138,7 +140,7 @@ FsUnlink(n) == /\ Tick /\ present[n] > 0
                /\ LET r1 == Raise(notes, actq, FdOf("D"), "write")
                       r2 == Raise(r1.notes, r1.actq, VnFds(present[n]), "delete") IN notes' = r2.notes /\ actq' = r2.actq
                /\ UNCHANGED <<wdT, byUser, seen, open, nextFd, closed, kqOpen, creates, dup, atAdd, userAdded, inc>>
-FsWrite(n)  == /\ Tick /\ present[n] > 0
+FsWrite(n)  == /\ Tick /\ present[n] > 0 /\ ~ENTRIES_ARE_DIRS
                /\ LET r == Raise(notes, actq, VnFds(present[n]), "write") IN notes' = r.notes /\ actq' = r.actq
                /\ UNCHANGED <<present, wdT, byUser, seen, open, nextFd, closed, kqOpen, creates, dup, atAdd, userAdded, inc>>
 FsChmod(n)  == /\ Tick /\ present[n] > 0
@@ -171,7 +173,9 @@ Handle ==
                    n == IF \E q \in Names : EntryPath(q) = row.path THEN CHOOSE q \in Names : EntryPath(q) = row.path ELSE ""
                    \* only after a Remove: os.Lstat(path) succeeds: sendCreateIfNew
                    \* (D9: also after a Rename, if the directory the entry lives in is watched)
+                   \* (D16: for an entry that is a directory the code used to skip this altogether)
                    back == n # "" /\ ("delete" \in fl \/ (RECHECK_ON_RENAME /\ Watching("D"))) /\ present[n] > 0
+                           /\ (ENTRIES_ARE_DIRS => (RECHECK_DIRS /\ Watching("D")))
                    w2 == IF back THEN WatchAll({n}, r.wd, r.open, nextFd) ELSE [wd |-> r.wd, open |-> r.open, next |-> nextFd] IN
                /\ wdT' = w2.wd /\ open' = w2.open /\ nextFd' = w2.next /\ byUser' = r.byUser
                /\ seen' = IF back THEN r.seen \cup {row.path} ELSE r.seen
